@@ -142,4 +142,8 @@ theorem Di.tryConnect_twice (s : Store K E) (u v : K) (e e' : E) :
     Di.tryConnect (Di.tryConnect s u v e).1 u v e' = ((Di.tryConnect s u v e).1, .exists_) :=
   Di.tryConnect_twice' s u v e e'
 
+theorem Un.tryConnect_twice (s : Store K E) (u v : K) (e e' : E) :
+    Un.tryConnect (Un.tryConnect s u v e).1 u v e' = ((Un.tryConnect s u v e).1, .exists_) :=
+  Un.tryConnect_twice' s u v e e'
+
 end G
